@@ -15,11 +15,11 @@ if [ -n "$demo" ]; then
   lib=$(ls $d/_b/src/Imath/libImath*.so | head -1)
   g++ -std=c++17 -O1 -I$d/src/Imath -I$d/_b/config $demo -o $d/_b/demo $lib -Wl,-rpath,$d/_b/src/Imath 2>$d/seed/demo_build.err || { echo DEMO-BUILD-FAILED; head -5 $d/seed/demo_build.err; }
   echo "== demo on changed tree"; (cd $d/_b && timeout 600 ./demo) > $d/seed/out_changed.txt 2>&1; echo "exit=$?" >> $d/seed/out_changed.txt; tail -6 $d/seed/out_changed.txt
-  git -C $d stash -q
+  git -C $d apply -R $d/seed/patch.diff || { echo REVERT-FAILED; exit 1; }    # (git stash is shared between worktrees: never use it here)
   cmake -G Ninja -S $d -B $d/_b0 >/dev/null && cmake --build $d/_b0 -j$J >/dev/null 2>&1
   lib0=$(ls $d/_b0/src/Imath/libImath*.so | head -1)
   g++ -std=c++17 -O1 -I$d/src/Imath -I$d/_b0/config $demo -o $d/_b0/demo $lib0 -Wl,-rpath,$d/_b0/src/Imath 2>/dev/null
   echo "== demo on original tree"; (cd $d/_b0 && timeout 600 ./demo) > $d/seed/out_original.txt 2>&1; echo "exit=$?" >> $d/seed/out_original.txt; tail -4 $d/seed/out_original.txt
-  git -C $d stash pop -q
+  git -C $d apply $d/seed/patch.diff
 fi
 rm -rf $d/_b $d/_b0
